@@ -16,7 +16,7 @@ def run(tier, seed, rep, replay=None):
     types = facts_jobs.traffic_types(path)
     maps = facts_jobs.example_maps()
     rng = random.Random(seed)
-    grid = [(1, 1), (16, 1), (128, 8)] if tier == "quick" else [(1, 1), (2, 3), (16, 1), (64, 4), (128, 8), (100, 7), (1024, 128)]
+    grid = [(1, 1), (16, 1), (128, 8), (256, 16), (1024, 128)] if tier == "quick" else [(1, 1), (2, 3), (16, 1), (64, 4), (128, 8), (100, 7), (1024, 128)]
     cases = []
     if replay is not None:
         cases = [replay["case"]["run"]]
